@@ -99,7 +99,8 @@ def execute(sched: dict) -> dict:
             stats["faults_fired"][k] = stats["faults_fired"].get(k, 0) + 1
         ab = out.get("abort")
         if ab and ab.get("sweep"):
-            stats["faults_fired"]["ABORT_SWEEP_POINTS"] = stats["faults_fired"].get("ABORT_SWEEP_POINTS", 0) + out.get("fired", 0)
+            stats["faults_fired"]["ABORT_SWEEP_POINTS"] = stats["faults_fired"].get("ABORT_SWEEP_POINTS", 0) + (
+                out.get("fired", 0) + out.get("store_fired", 0) + out.get("load_fired", 0))
         elif ab:
             name = "ABORT_IN_OP" if ab.get("fired") else "ABORT_NOT_FIRED"
             stats["faults_fired"][name] = stats["faults_fired"].get(name, 0) + 1
